@@ -18,8 +18,8 @@ def jobs(tier):
     J = []
     cap = 600 if quick else 40000
     A = lambda mk, **kw: J.append(Job("A", mk, max_states=kw.pop("max_states", cap), **kw))
-    B = lambda mk, **kw: J.append(Job("B", mk, cycles=kw.pop("cycles", 3000 if quick else 30000),
-                                      runs=kw.pop("runs", 1 if quick else 3), **kw))
+    B = lambda mk, **kw: J.append(Job("B", mk, cycles=kw.pop("cycles", 3000 if quick else 20000),
+                                      runs=kw.pop("runs", 1 if quick else 2), **kw))
 
     # ---- WaitTimer, bus error counter
     for t in (1, 2, 3, 5):
@@ -45,11 +45,11 @@ def jobs(tier):
     # The composed AXI netlists evaluate at < 1000 cycles/s and the lock counters (0..255) multiply the state
     # space, so the product is explored breadth-first up to a transition budget (all states within a few
     # outstanding requests of reset: every timer value x FSM state x grant x select is reached long before).
-    budget = 7000 if quick else 100000
+    budget = 7000 if quick else 40000
 
-    def AX(full, n, k, t, d, m_parts=None, s_parts=None, scale=1.0):
+    def AX(full, n, k, t, d, m_parts=None, s_parts=None, scale=1.0, kind="shared"):
         alpha = L.ax_alphabet(n, k, 4, d, full, m_parts=m_parts, s_parts=s_parts)
-        A(lambda: L.AxSharedInst(full, n, k, t, alphabet=alpha, tag="/" + d),
+        A(lambda: L.AxSharedInst(full, n, k, t, alphabet=alpha, tag="/" + d, kind=kind),
           max_states=max(30, int(budget * scale) // len(alpha)))
 
     mw2 = [(0, 0, 0, 0), (0, 0, 0, 1), (1, 0, 1, 0), (1, 0, 0, 1), (0, 0, 1, 1), (1, 16, 1, 1)]   # 2 masters, 1 slave
@@ -57,8 +57,8 @@ def jobs(tier):
     sw2 = [(0, 0, 0, 0), (1, 1, 0, 0), (0, 0, 1, 1), (1, 0, 0, 0), (0, 1, 1, 3)]                    # 2 slaves
     sr2 = [(0, 0, 0, 0, 0), (1, 0, 0, 0, 0), (0, 1, 1, 0x5a, 0), (1, 1, 2, 0x3c, 0)]
     for t in (1, 2, 3):
-        AX(False, 1, 1, t, "w", scale=1.0 if quick else 3.5)      # thorough: the complete product (lock 0..255)
-        AX(False, 1, 1, t, "r")
+        AX(False, 1, 1, t, "w", scale=1.0 if quick else (9.0 if t == 1 else 2.0))   # thorough, t=1: complete product
+        AX(False, 1, 1, t, "r", scale=1.0 if quick else 2.5)                       # thorough: complete product
     AX(True, 1, 1, 2, "r")
     AX(True, 1, 1, 2, "w")
     if not quick:
@@ -74,6 +74,15 @@ def jobs(tier):
     AX(True, 2, 1, 1, "r", m_parts=mr2, s_parts=[(0, 0, 0, 0, 0), (1, 0, 0, 0, 0), (0, 1, 1, 0x5a, 0),
                                                  (0, 1, 1, 0x5a, 1), (1, 1, 2, 0x3c, 1)])
     AX(False, 1, 1, None, "w", scale=0.5)
+    # crossbars: `timeout_cycles` given, the model has no timer (finding C11-crossbar-timeout-ignored)
+    AX(False, 1, 1, 2, "w", scale=0.5, kind="xbar")
+    AX(False, 1, 1, 2, "r", scale=0.5, kind="xbar")
+    AX(True, 1, 1, 3, "r", scale=0.5, kind="xbar")
+    if not quick:
+        AX(False, 2, 2, 2, "w", kind="xbar", s_parts=sw2[:4],
+           m_parts=[(0, 0, 0, 1), (1, 0, 1, 0), (1, 16, 1, 1), (0, 16, 1, 1), (1, 32, 1, 1)])
+        AX(True, 2, 2, 2, "r", kind="xbar", m_parts=[(0, 0, 1), (1, 0, 1), (1, 16, 0), (1, 32, 1)],
+           s_parts=[(0, 0, 0, 0, 0), (1, 0, 0, 0, 0), (0, 1, 1, 0x5a, 0), (0, 1, 1, 0x5a, 1)])
     if not quick:
         AX(False, 2, 2, 2, "w", m_parts=[(0, 0, 0, 1), (1, 0, 1, 0), (1, 16, 1, 1), (0, 16, 1, 1), (1, 32, 1, 1)],
            s_parts=sw2[:4])
@@ -96,6 +105,8 @@ def jobs(tier):
     B(lambda: L.WbSharedInst(2, 2, 16, dw=32, sh=4, kind="xbar"))
     B(lambda: L.AxTimeoutInst(True, 16, dw=32), cycles=8000 if quick else 80000)
     B(lambda: L.AxSharedInst(False, 3, 2, 16, dw=64))
+    B(lambda: L.AxSharedInst(False, 2, 2, 16, dw=32, kind="xbar"), cycles=1500 if quick else 15000)
+    B(lambda: L.AxSharedInst(True, 2, 2, 16, dw=32, kind="xbar"), cycles=1500 if quick else 15000)
     return J
 
 
@@ -140,10 +151,51 @@ def env_statistics(ctx):
     return out
 
 
+CORPUS = os.path.join(os.path.dirname(os.path.dirname(os.path.dirname(os.path.abspath(__file__)))), "corpus", "C11")
+
+
+def corpus_entries():
+    import glob, json
+    return [json.load(open(f)) for f in sorted(glob.glob(os.path.join(CORPUS, "*.json")))]
+
+
+def run_corpus(ctx):
+    """Regression traces (run first): on the unchanged tree the property monitor must stay silent and the model
+    must agree cycle by cycle."""
+    from explore import Disagreement, impl_step, _masked_equal
+    out = []
+    n = 0
+    for e in corpus_entries():
+        if "trace" not in e:
+            continue
+        inst = getattr(L, e["instance"]["cls"])(*e["instance"]["args"])
+        trace = [tuple(l) for l in e["trace"]]
+        r = replay_with_monitor(inst, trace)
+        if r:
+            d = Disagreement(inst, trace[:r[0] + 1], r[0], None, None, kind="monitor:" + r[1])
+            d.job = None
+            out.append(d)
+            continue
+        root = inst.netlist.snapshot()
+        impl = [impl_step(inst, l) for l in trace]
+        inst.netlist.restore(root)
+        ctx.lean.open(inst.lean_open)
+        model = ctx.lean.run(trace)
+        ctx.lean.close_session()
+        for c, (a, b) in enumerate(zip(impl, model)):
+            if not _masked_equal(inst, a, b):
+                out.append(Disagreement(inst, trace[:c + 1], c, a, b))
+                break
+        n += 1
+    ctx.cov.add_cases("corpus regression traces (monitor silent, model agrees)", n, n, exhaustive=False)
+    return out
+
+
 def correspond(ctx):
+    dis0 = run_corpus(ctx)
     ctx.jobs = jobs(ctx.tier)
     dis, bad = run_jobs(ctx, ctx.jobs)
-    return dis + soc_cases(ctx) + env_statistics(ctx)
+    return dis0 + dis + soc_cases(ctx) + env_statistics(ctx)
 
 
 def _fmt(inst, trace, msg):
@@ -186,6 +238,8 @@ def search(ctx, disagreements, proof_info):
             if time.time() > deadline:
                 break
     for d in mach:
+        if getattr(d, "kind", "").startswith("monitor:") and getattr(d, "job", None) is None and d.inst is not None:
+            return _fmt(d.inst, d.trace, d.kind[8:])          # corpus regression trace
         if getattr(d, "kind", "").startswith("monitor:") and getattr(d, "job", None) is not None:
             inst = all_jobs[d.job].make()
             tr = list(d.trace)
@@ -215,9 +269,10 @@ def search(ctx, disagreements, proof_info):
 def probes(ctx):
     """Known findings (all open): the witnesses of corpus/C11/*.json replayed on the real code."""
     out = []
-    for fid, fn in ((F_XBAR, L.probe_crossbar), (F_RESP, L.probe_response_phase), (F_STALE, L.probe_stale_response)):
-        fails, what = fn()
-        out.append((fid, fails, what))
+    for e in corpus_entries():
+        if "probe" in e:
+            fails, what = getattr(L, e["probe"]["fn"])(**e["probe"]["args"])
+            out.append((e["id"], fails, what))
     # sanity of the same oracle on the configuration the theorems cover: the shared interconnects terminate a
     # silent / unmapped request at exactly t (Wishbone ack) resp. t + 2 (AXI B/R handshake)
     for t in (1, 4):
